@@ -1,4 +1,6 @@
-"""Hand-built rich scenes shared by the schedule / history / capacity / batch drivers.
+"""Hand-built rich scenes (tree c branches: c -> {c2b, c3b}, so branch-wise tree traversals share an ancestor)
+
+Hand-built rich scenes shared by the schedule / history / capacity / batch drivers.
 
 `rich(opt)` has three kinematic trees plus a slider, resting and stacked contacts, joint limits, friction loss,
 connect + weld + joint equalities, a limited spatial tendon, a fixed tendon with friction loss, actuators with
@@ -41,6 +43,10 @@ def rich(opt="", sleep=False, delay=False, extra_sensor=True):
         <geom name="c2" type="capsule" fromto="0 0 0 0 0 -0.28" size=".04" mass="0.4" condim="1"/>
         <site name="sc" pos="0 0 -0.28"/>
       </body>
+      <body name="c3b" pos="0 0.06 -0.15">
+        <joint name="h3" type="hinge" axis="1 0 0" damping="0.02"/>
+        <geom name="c3" type="capsule" fromto="0 0 0 0 0.12 -0.05" size=".02" mass="0.1" contype="0" conaffinity="0"/>
+      </body>
     </body>
     <body name="e" pos="0.8 0 0.3"><joint name="s1" type="slide" axis="0 0 1" limited="true" range="-0.1 0.1"/><geom name="esph" type="sphere" size=".08" mass="0.6"/><site name="se"/></body>
     <body name="f" pos="0.8 0.4 0.079"><freejoint name="ff"/><geom name="fcyl" type="capsule" size=".08 .1" quat="0.7071 0.7071 0 0" mass="0.5" condim="6"/></body>
@@ -74,6 +80,7 @@ def rich_states(mjm, nworld, variant=0):
     jid = lambda n: mjm.jnt_qposadr[mujoco.mj_name2id(mjm, mujoco.mjtObj.mjOBJ_JOINT, n)]
     d.qpos[jid("h1")] = 0.34 if k % 2 == 0 else -0.33
     d.qpos[jid("h2")] = 0.3 - 0.2 * k
+    d.qpos[jid("h3")] = -0.4 + 0.3 * k
     d.qpos[jid("s1")] = 0.11 if k % 3 != 1 else -0.105
     d.qpos[jid("fb") + 0] += 0.01 * k
     d.qvel[:] = 0.05 * np.cos(np.arange(mjm.nv) + k)
